@@ -42,7 +42,8 @@ type model struct {
 	err  bool
 }
 
-func (m *model) fits(n int) bool { return n >= 0 && m.off+n <= len(m.data) }
+// fits is written without forming off+n: the sum can exceed the integer range for the sizes of the quantifier
+func (m *model) fits(n int) bool { return n >= 0 && n <= len(m.data)-m.off }
 
 // step returns the expected return value rendered as a string.
 func (m *model) step(o op) string {
@@ -108,7 +109,7 @@ func (m *model) step(o op) string {
 		return "x" + v
 	case "Seek":
 		// forward: must fit; backward: the rewind the IPP code relies on, allowed inside the buffer
-		if o.N >= 0 && !m.fits(o.N) || o.N < 0 && m.off+o.N < 0 {
+		if o.N >= 0 && !m.fits(o.N) || o.N < 0 && o.N < -m.off {
 			m.err = true
 			return ""
 		}
